@@ -1,4 +1,5 @@
 """C28 Event listeners fire exactly as registered - Events.tla (histories) + ExecOnce.tla (schedules). DESIGN 3.6, 2.5."""
+import hashlib
 import multiprocessing as mp
 import os
 import random
@@ -12,7 +13,7 @@ MANIFEST = dict(
     text="Events.tla holds the mechanism of sqlalchemy.event (per-class _clslevel deques filled through walk_subclasses/update_subclass, "
          "_EmptyListener/_ListenerCollection/_JoinedListener per instance, only_once/named/retval wrapper chain, both registry maps) next to an "
          "abstract log of registrations in force; TLC checks exhaustively (Base<-A<-B plus a late class, 2 instances incl. a joined one, 3 functions, "
-         "all walks of 4 steps quick / 5 thorough) that what the mechanism would call is exactly what the log says: every registered listener of the "
+         "all walks of 4 steps, thorough: all 16 option combinations and 5 steps over 2 functions) that what the mechanism would call is exactly what the log says: every registered listener of the "
          "target and its ancestors once, class-level first, insert=True first, registration order otherwise, once-listeners at most once, nothing "
          "after remove, no dangling registry entry.  Every labelled edge of that graph plus TLC-simulated walks of 9-10 steps are replayed on a private "
          "Events/target hierarchy comparing calls (ids, args, named kwargs, retval threading), the collections, both registry maps and event.contains() "
@@ -66,9 +67,11 @@ def _label(a):
 
 def _shard(args):
     """one slice of the Events edge dump: TLC (1 worker) -> tours -> replay, all inside this process"""
-    shard, nshards, consts, styles, work, seed, nrand = args
+    shard, nshards, consts, styles, work, seed, nrand, props = args
     wd = os.path.join(work, "shard%d" % shard)
-    g = graph.dump("Events", _events_cfg(consts, styles, shard=shard, emit=True, nshards=nshards), wd, timeout=2400, heap="4g")
+    # the dump run is also a model-checking run: every invariant / action property is checked on this slice of the graph
+    g = graph.dump("Events", _events_cfg(consts, styles, shard=shard, emit=True, nshards=nshards, invs=INVS, props=props), wd,
+                   timeout=3000, heap="4g")
     rng = random.Random(seed * 1000 + shard)
     maxlen = consts["MaxDepth"]
     walks, plan = graph.plan_tours(g, maxlen, rng, budget_s=600)
@@ -101,7 +104,10 @@ def _shard(args):
     samples = []
     for w in (walks[len(walks) // 2:len(walks) // 2 + 1] + walks[-1:]):
         samples.append([_label(g.edges[ei][1]) for ei in w])
-    return dict(shard=shard, states=g.tlc.distinct, generated=g.tlc.generated, edges=len(g.edges), plan=plan, steps=steps,
+    dg = lambda k: hashlib.blake2b(k.encode(), digest_size=8).digest()
+    sdig = set(dg(k) for k in g.states)
+    edig = set(dg(fk + graph.key({k: v for k, v in a.items() if k != "obs"}) + tk) for fk, a, tk in g.edges)
+    return dict(shard=shard, violated=g.tlc.violated, sdig=sdig, edig=edig, states=g.tlc.distinct, generated=g.tlc.generated, edges=len(g.edges), plan=plan, steps=steps,
                 walks=len(walks) + len(extra), mism=mism[:40], nmism=len(mism), cov=cov, detail=detail, nontriv=nontriv,
                 samples=samples, dump_wall=round(g.tlc.wall, 1))
 
@@ -184,27 +190,23 @@ def main(chk):
     # ------------------------------------------------------------------ 1. Events.tla: exhaustive model checking
     base = dict(NF=3, InstCls="{1,2,3,4}", CPars="{1,2,3}", BadRm="{1,11}", JoinedXoBroken=tree["joined_xo_broken"])
     if quick:
-        chk_consts, chk_styles = dict(base, MaxDepth=5), "StylesQuick"        # CONSTRAINT Depth: level <= MaxDepth, i.e. walks of MaxDepth-1 steps
-        dump_consts, dump_styles, nshards, nrand = dict(base, MaxDepth=5), "StylesQuick", 8, 20
+        deep = None
+        dump_consts, dump_styles, nshards, nrand = dict(base, MaxDepth=5), "StylesQuick", 8, 20      # MaxDepth 5 = walks of 4 steps
         sim_num, sim_depth = 120, 9
     else:
-        chk_consts, chk_styles = dict(base, MaxDepth=6), "StylesQuick"
+        deep = (dict(base, NF=2, MaxDepth=6), "StylesQuick")     # all walks of 5 steps over two functions (multi-worker run, no dump)
         dump_consts, dump_styles, nshards, nrand = dict(base, MaxDepth=5), "StylesFull", 16, 200
         sim_num, sim_depth = 1500, 10
-    r = tlc.run("Events", _events_cfg(chk_consts, chk_styles, invs=INVS, props=PROPS), chk.work + "/mc", workers=nproc,
-                timeout=6000, keep_stdout=False)
-    if r.violated:
-        chk.violation({"spec": "Events", "action": "TLC", "invariant": r.violated}, "TLC: %s violated in Events.tla" % r.violated,
-                      {"invariant": r.violated, "tail": r.stdout[-6000:]})
-    rfull = None
-    if not quick:
-        # thorough: additionally the graph that is dumped below (all 16 option combinations, 4 steps) is model-checked itself
-        rfull = tlc.run("Events", _events_cfg(dump_consts, dump_styles, invs=INVS, props=PROPS), chk.work + "/mcfull", workers=nproc,
-                        timeout=6000, keep_stdout=False)
-        if rfull.violated:
-            chk.violation({"spec": "Events", "action": "TLC", "invariant": rfull.violated, "styles": "full"},
-                          "TLC: %s violated in Events.tla (all option combinations)" % rfull.violated,
-                          {"invariant": rfull.violated, "tail": rfull.stdout[-6000:]})
+    # ExecOnceRuns (exec_once works on every target, joined ones included) is part of the property set unless the tree still has
+    # the _JoinedListener defect, in which case it is checked separately below (and fails)
+    props = PROPS + ([] if tree["joined_xo_broken"] else ["ExecOnceRuns"])
+    r = None
+    if deep:
+        r = tlc.run("Events", _events_cfg(deep[0], deep[1], invs=INVS, props=props), chk.work + "/mc", workers=nproc,
+                    timeout=6000, keep_stdout=False)
+        if r.violated:
+            chk.violation({"spec": "Events", "action": "TLC", "invariant": r.violated, "run": "deep"},
+                          "TLC: %s violated in Events.tla" % r.violated, {"invariant": r.violated, "tail": r.stdout[-6000:]})
     # 1b. the intended behaviour of exec_once on a joined dispatcher (the spec follows the code where they differ)
     if tree["joined_xo_broken"]:
         r2 = tlc.run("Events", _events_cfg(dict(base, MaxDepth=4), "StylesQuick", props=["ExecOnceRuns"]), chk.work + "/mc2",
@@ -216,12 +218,18 @@ def main(chk):
             chk.machinery("calibration: probe says exec_once on a joined listener is broken but TLC finds ExecOnceRuns to hold")
     lap("events_tlc")
     # ------------------------------------------------------------------ 2. every edge, replayed (sharded by the first step)
-    jobs = [(i, nshards, dump_consts, dump_styles, chk.work + "/dump", chk.seed, nrand) for i in range(nshards)]
+    jobs = [(i, nshards, dump_consts, dump_styles, chk.work + "/dump", chk.seed, nrand, props) for i in range(nshards)]
     ctx = mp.get_context("fork")
     with ctx.Pool(max(1, min(nshards, nproc))) as pool:
         res = pool.map(_shard, jobs, chunksize=1)
     cov, detail = {}, {}
+    sdig, edig = set(), set()
     for x in res:
+        sdig |= x.pop("sdig")
+        edig |= x.pop("edig")
+        if x["violated"]:
+            chk.violation({"spec": "Events", "action": "TLC", "invariant": x["violated"]},
+                          "TLC: %s violated in Events.tla (shard %d)" % (x["violated"], x["shard"]))
         for k, v in x["cov"].items():
             cov[k] = cov.get(k, 0) + v
         for k, v in x["detail"].items():
@@ -254,7 +262,7 @@ def main(chk):
         # the histories part has already shown a divergence, in which case that verdict stands.
         if not chk.violations:
             chk.machinery(str(e))
-        return chk.finish(dict(states=r.distinct, transitions=r.generated, events_edges_replayed=sum(x["edges"] for x in res),
+        return chk.finish(dict(states=len(sdig), transitions=len(edig), events_edges_replayed=sum(x["edges"] for x in res),
                                schedules_skipped=str(e)[:200], samples=[s_ for x in res[:1] for s_ in x["samples"]],
                                distinct_nontrivial=sum(x["nontriv"] for x in res), evaluations=sum(x["steps"] for x in res) + ssteps,
                                traces_validated_against_impl=sum(x["walks"] for x in res) + len(swalks),
@@ -273,10 +281,10 @@ def main(chk):
         samples.append(["scenario %s boom=%s" % (xg.states[xg.edges[w[0]][0]]["op"], xg.states[xg.edges[w[0]][0]]["boom"])] +
                        ["T%d:%s" % (xg.edges[ei][1]["t"], xg.edges[ei][1]["p"]) for ei in w])
     return chk.finish(
-        dict(states=r.distinct + xr.distinct + (rfull.distinct if rfull else 0),
-             transitions=r.generated + xr.generated + (rfull.generated if rfull else 0),
-             events_states=r.distinct, events_transitions=r.generated, events_depth=r.depth,
-             events_full_styles_states=rfull.distinct if rfull else 0, events_full_styles_transitions=rfull.generated if rfull else 0,
+        dict(states=len(sdig) + xr.distinct + (r.distinct if r else 0),
+             transitions=len(edig) + xr.generated + (r.generated if r else 0),
+             events_states=len(sdig), events_transitions=len(edig),      # distinct over all shards (union of digests)
+             events_deep_states=r.distinct if r else 0, events_deep_transitions=r.generated if r else 0, events_deep_depth=r.depth if r else 0,
              events_edges_replayed=edges, events_edge_walks=sum(x["walks"] for x in res), events_edge_steps=sum(x["steps"] for x in res),
              events_sim_walks=len(swalks), events_sim_steps=ssteps, events_sim_edges=len(sg.edges),
              execonce_states=xr.distinct, execonce_transitions=xr.generated, execonce_depth=xr.depth,
@@ -300,5 +308,5 @@ def main(chk):
                      "joined targets: both sides of the join fire (a listener on a common ancestor class fires once per side, as _join documents)",
                      "schedules: thread switches matter only at the shared-memory operations listed in ExecOnce.tla (line events of the anchored "
                      "functions, Lock.acquire/release, the listener body); %d threads" % nt,
-                     "bounded: 3 classes + 1 late subclass, 2 instances, 3 functions, exhaustive walks <= %d steps (TLC) / <= %d steps (replay)" % (
-                         chk_consts["MaxDepth"] - 1, dump_consts["MaxDepth"] - 1)])
+                     "bounded: 3 classes + 1 late subclass, 2 instances, 3 functions, exhaustive walks <= %d steps (TLC and replay)%s" % (
+                         dump_consts["MaxDepth"] - 1, "; <= %d steps with 2 functions (TLC only)" % (deep[0]["MaxDepth"] - 1) if deep else "")])
